@@ -239,4 +239,37 @@ def run(F, rep, tier):
     rep.floor("C08-R6", "emitters scanned for element dropping", n6, 100)
     from rules import c08_grammar
     c08_grammar.run(F, rep, fm, reach)
+    # ---- R10: based-literal prefixes: the emitter of a RealNumber variant writes a prefix its parser leaf accepts
+    rep.rule("C08-R10", "based literals: the prefix the formatter writes for RealNumber::{Hexadecimal,Octal,Binary,Decimal} is a tag the parser leaf building that variant accepts")
+    from lib.emit import parse_format, split_format
+    leaf_tags = defaultdict(set)
+    for it in items:
+        if it["k"] != "fn" or "formatter" in it["mod"] or not it.get("body"):
+            continue
+        vs = {m.group(1) for x in find(it["body"], "path") for m in [re.match(r"^RealNumber::(\w+)$", x[1])] if m}
+        tags = {c[2][0][1] for c in find(it["body"], "call") if path_of(c[1]) == "tag" and c[2] and c[2][0][0] == "str" and re.match(r"^0[a-zA-Z]$", c[2][0][1])}
+        if len(vs) == 1 and tags:
+            leaf_tags[next(iter(vs))] |= tags
+    rep.floor("C08-R10", "based-literal parser leaves", len(leaf_tags), 4)
+    n10 = 0
+    for it in fm:
+        if it["name"] not in reach:
+            continue
+        for m in find(it["body"], "match"):
+            for arm in m[2]:
+                mm = re.match(r"^RealNumber::(\w+)", render_pat(arm[0]))
+                if not mm or mm.group(1) not in leaf_tags:
+                    continue
+                fmts = [parse_format(x[3] if len(x) > 3 else x[2])[0] for x in find(arm[2], "macro") if last_seg(x[1]) in ("format_args", "format")]
+                fmts = [f for f in fmts if f is not None]
+                if len(fmts) != 1:
+                    continue
+                parts = split_format(fmts[0])
+                prefix = parts[0][1] if parts and parts[0][0] == "lit" else ""
+                n10 += 1
+                rep.check(prefix in leaf_tags[mm.group(1)], "C08-R10", "%s:RealNumber::%s" % (it["name"], mm.group(1)),
+                          "Formatter::%s prints RealNumber::%s with the prefix `%s`; the parser leaf of that variant accepts %s: the formatted literal re-parses as another number or not at all" % (
+                              it["name"], mm.group(1), prefix, sorted(leaf_tags[mm.group(1)])), "src/syntax/src/formatter.rs (expanded line %d)" % arm[3],
+                          sample={"variant": mm.group(1), "prefix": prefix, "leaf_accepts": sorted(leaf_tags[mm.group(1)])})
+    rep.floor("C08-R10", "based-literal emitter arms compared", n10, 4)
     rep.analysed = {"formatter_methods": len(fm), "enum_matches": n1, "struct_emitters": n2, "operator_literals": n3, "child_text_inspections": n5}
